@@ -9,6 +9,7 @@ from hypothesis import strategies as st
 
 from .. import astgen, formcheck, inputs, kernels, lntree, refeval, sanitize, specs, strategies
 from ..common import Run, ShardResult, run_shards, scratch, spec_hash, verif_seed
+from ..common import thorough  # noqa: E402
 from ..hyp import Outcome, drive
 
 PROP = "C08"
@@ -203,7 +204,7 @@ def shard(shard, nshards, n, seed):
 
 def run(tier: str) -> int:
     run_ = Run(PROP, tier, "exploration", RULE)
-    n = 7 if tier == "quick" else 150
+    n = 7 if tier == "quick" else thorough(60)
     parts = run_shards(shard, 16, n=n, seed=verif_seed())
     for part in parts:
         if part.get("crash"):
